@@ -19,6 +19,14 @@ META = {
 }
 
 
+def _r18_2(ctx):
+    import props.c18 as c18
+    c18.r18_2(ctx)
+
+
+_r18_2.__name__ = 'r18_2'
+
+
 def run(ctx):
     import engine
-    engine.run_rules(ctx, [dt.r03_1, dt.r03_2, dt.r03_3, dt.r03_4, dt.r03_5, dt.r03_6, dt.r03_7, dt.r03_8, dt.r02_6, dt.r02_7, dt.r02_3, dt.r03_9, dt.r03_10])
+    engine.run_rules(ctx, [dt.r03_1, dt.r03_2, dt.r03_3, dt.r03_4, dt.r03_5, dt.r03_6, dt.r03_7, dt.r03_8, dt.r02_6, dt.r02_7, dt.r02_3, dt.r03_9, dt.r03_10, _r18_2])
